@@ -7,7 +7,7 @@ Open Scope N_scope.
 (* ---------- decoding / printing of the case values ---------- *)
 (* integers travel as (neg #magnitude) *)
 Definition z_of_arg (a : arg) : Z :=
-  let m := Z.of_N (be_to_N (arg_bytes (arg_nth 1 a))) in
+  let m := Spec.C16.zbe (arg_bytes (arg_nth 1 a)) in
   if arg_bool (arg_nth 0 a) then (- m)%Z else m.
 Definition optz_of_arg (a : arg) : option Z :=
   match a with AL [z] => Some (z_of_arg z) | _ => None end.
@@ -95,6 +95,10 @@ Definition run_C16 (op : bytes) (input : arg) : arg :=
     AL [AZ 0%Z; AL []]
   else if bytes_eqb op (bs "table") then
     AL (map arg_of_row table)
+  else if bytes_eqb op (bs "fresh") then
+    (* CurveNameFromParameters on each set in turn, in a process that has examined nothing before:
+       nothing is carried from one call to the next *)
+    AL (map (fun f => obs_result AB (params_curve_name_fast (params_of_arg f))) (arg_list input))
   else if bytes_eqb op (bs "bundle") || bytes_eqb op (bs "keystore") then
     obs_result arg_of_info (describe_fast (carrier_of_arg (arg_nth 0 input)))
   else if bytes_eqb op (bs "history") then
@@ -294,6 +298,13 @@ Definition check_C16 (op : bytes) (input impl : arg) : arg :=
     | AL [AZ 0%Z; i] => verdict (first_some (map (check_name fields) (inferred_in (info_of_arg i))))
     | _ => AS "inspection of a file with explicit EC parameters failed (panic or error)"
     end
+  else if bytes_eqb op (bs "fresh") then
+    verdict (first_some (map (fun f_o =>
+      match snd f_o with
+      | AL [AZ 0%Z; AB []] => None
+      | AL [AZ 0%Z; AB shown] => check_name (Some (fst f_o)) shown
+      | _ => Some "CurveNameFromParameters failed (panic) on explicit parameters"%string
+      end) (combine (arg_list input) (arg_list impl))))
   else if bytes_eqb op (bs "bundle") || bytes_eqb op (bs "keystore") then
     match impl with
     | AL [AZ 0%Z; i] => verdict (check_obj_info (arg_nth 0 input) (info_of_arg i))
